@@ -102,19 +102,24 @@ TQSub ==
   /\ ProjOK
 TQPath ==
   /\ IsEvent("QPath") /\ Rooted /\ QStruct /\ ProjOK
-  /\ \A i \in DOMAIN Ev.rows :
-       LET x == Ev.rows[i]  a == x[1]  b == x[2]  p == NodePath(nodes, edges, a, b) IN
+  /\ LET D == DescTable(nodes, edges) IN
+     \A i \in DOMAIN Ev.rows :
+       LET x == Ev.rows[i]  a == x[1]  b == x[2]
+           m == MrcaT(D, {a, b})
+           p == NodePathVia(edges, a, b, m) IN
          /\ a \in nodes /\ b \in nodes
          /\ IsNodePath(edges, x[3], a, b)                                           \* the definition
          /\ x[3] = p                                                                \* (unique in a tree)
-         /\ x[4] = Without(p, Mrca(nodes, edges, {a, b}))                           \* includeAncestor = false
-         /\ IsEdgePath(edges, x[5], p) /\ x[5] = EdgePath(nodes, edges, a, b)
+         /\ x[4] = Without(p, m)                                                    \* includeAncestor = false
+         /\ IsEdgePath(edges, x[5], p) /\ x[5] = EdgesAlong(edges, p)
 TQMrca ==
   /\ IsEvent("QMrca") /\ Rooted /\ QStruct /\ ProjOK
-  /\ \A i \in DOMAIN Ev.rows :
+  /\ LET D == DescTable(nodes, edges) IN
+     \A i \in DOMAIN Ev.rows :
        LET x == Ev.rows[i]  Q == SeqToSet(x[1]) IN
          /\ Q # {} /\ Q \subseteq nodes
-         /\ x[2] = Mrca(nodes, edges, Q)
+         /\ x[2] = MrcaT(D, Q)                                                      \* graph level
+         /\ x[3] = x[2]                                                             \* observer level
 
 TraceNext == TReset \/ TCreateNode \/ TAddSon \/ TLink \/ TSetFather \/ TRemoveSon \/ TUnlink \/ TDeleteNode
              \/ TSetRoot \/ TRootAt \/ TUnRoot \/ TQValid \/ TQRooted
